@@ -948,3 +948,76 @@ Proof.
   apply parse_host_sound, host_ok_sound in Eh.
   change (ia_ok a ia = true) in Ei. now rewrite Ei, Eh.
 Qed.
+
+(** ---------------------------------------------------------------- audit follow-up: every separator *)
+Lemma sep_head_ok_head sep : sep_head_ok sep = true -> head_ok sep.
+Proof.
+  destruct sep as [|h p]; [discriminate|]. cbn [sep_head_ok]. intros H.
+  exists h, p. split; [reflexivity|]. now apply negb_true_iff.
+Qed.
+
+Lemma no_dash_existsb sep : existsb (N.eqb 45) sep = false -> ~ In 45 sep.
+Proof.
+  intros H Hin. assert (existsb (N.eqb 45) sep = true); [|congruence].
+  apply existsb_exists. exists 45. split; [assumption|apply N.eqb_refl].
+Qed.
+
+(** FormatIA round trip under exactly what its proof uses *)
+Lemma parse_format_ia_weak l ia : ia < 2 ^ 64 ->
+  head_ok (o_sep (apply_opts l)) -> ~ In 45 (o_sep (apply_opts l)) ->
+  parse_formatted_ia l (format_ia l ia) = Some ia.
+Proof.
+  intros Hia Hh Hd. unfold parse_formatted_ia.
+  assert (E : format_ia l ia = format_isd l (ia_isd ia) ++ dash ++ format_as l (ia_as ia)).
+  { unfold format_ia, format_isd, format_as. now rewrite <- !app_assoc. }
+  rewrite E, split_dash_two.
+  - rewrite parse_format_isd by apply ia_isd_range.
+    rewrite parse_format_as by (try apply ia_as_range; assumption).
+    f_equal. now apply ia_parts.
+  - unfold format_isd. intros Hin. apply in_app_or in Hin. destruct Hin as [Hin|Hin].
+    + revert Hin. apply no_dash_prefix, no_dash_isd_prefix.
+    + revert Hin. apply no_dash_dec.
+  - unfold format_as. intros Hin. apply in_app_or in Hin. destruct Hin as [Hin|Hin].
+    + revert Hin. apply no_dash_prefix, no_dash_as_prefix.
+    + revert Hin. apply no_dash_fmt_as; [apply ia_as_range | assumption].
+Qed.
+
+Lemma roundtrip_k_weak k l v :
+  in_range k v = true -> sep_good k l = true -> parse_k k l (fmt_k k l v) = Some v.
+Proof.
+  destruct k; cbn [in_range sep_good parse_k fmt_k]; intros H Hs.
+  - apply parse_fmt_isd. lia.
+  - apply parse_fmt_as; [apply sep_ok_head, colon_ok | lia].
+  - apply parse_fmt_ia. lia.
+  - apply parse_format_isd. lia.
+  - apply parse_format_as; [lia | now apply sep_head_ok_head].
+  - apply andb_true_iff in Hs. destruct Hs as [H1 H2]. apply negb_true_iff in H2.
+    apply parse_format_ia_weak; [lia | now apply sep_head_ok_head | now apply no_dash_existsb].
+  - now apply parse_svc_string.
+Qed.
+
+Lemma dec_iff_k_weak k l v :
+  in_range k v = true -> sep_good k l = true -> dec_iff_ok k l v (fmt_k k l v) = true.
+Proof.
+  destruct k; cbn [in_range sep_good dec_iff_ok fmt_k]; intros H Hs; try reflexivity.
+  - rewrite fmt_as_dec_iff; [apply eqb_reflx | apply sep_ok_head, colon_ok | lia].
+  - unfold format_as. rewrite trim_prefix_app.
+    rewrite fmt_as_dec_iff; [apply eqb_reflx | now apply sep_head_ok_head | lia].
+Qed.
+
+Lemma fmt_oracle_good k l v : sep_good k l = true ->
+  fmt_oracle k l v (fmt_k k l v) (parse_k k l (fmt_k k l v)) = true.
+Proof.
+  intros Hs. unfold fmt_oracle. destruct (in_range k v) eqn:E; [|reflexivity].
+  rewrite roundtrip_k_weak, Hs, dec_iff_k_weak by assumption. cbn. now rewrite N.eqb_refl.
+Qed.
+
+(** the old separator condition implies the new one *)
+Lemma sep_ok_good k l : sep_ok (o_sep (apply_opts l)) = true -> sep_good k l = true.
+Proof.
+  intros H. pose proof (sep_ok_head _ H) as (h & p & E & Hh). pose proof (sep_ok_nodash _ H) as Hd.
+  destruct k; cbn [sep_good]; try reflexivity; rewrite E in *; cbn [sep_head_ok]; rewrite Hh; cbn [negb andb];
+    try reflexivity.
+  apply negb_true_iff. apply not_true_iff_false. intros Hx. apply existsb_exists in Hx.
+  destruct Hx as (x & Hin & Hx). apply N.eqb_eq in Hx. subst x. now apply Hd.
+Qed.
